@@ -170,7 +170,7 @@ class SysRun(object):
             try:
                 kind = spec["kind"]
                 if not run.ref_mode:
-                    if kind == "slow":
+                    if kind == "slow" or spec.get("d"):
                         s.sleep(spec.get("d", 1.0))
                     elif kind == "gate":
                         run.gate_wait(spec.get("gate", "g"))
@@ -423,7 +423,7 @@ class SysRun(object):
         kind = op[0]
         s.emit("op.call", ci, oi, kind)
         out = None
-        if self.p["server"].get("http11") and kind in ("raw", "rawtrunc", "abort"):
+        if self.p["server"].get("http11") and kind in ("raw", "rawslow", "rawtrunc", "abort"):
             # these operations open a connection of their own; a client that kept its proxy's persistent connection
             # open meanwhile would hold a worker of the server (the only one of a plain server) while waiting for
             # another: it lets go of the first connection, as a client with one connection at a time does
@@ -470,6 +470,8 @@ class SysRun(object):
                 out = ["batch", vals]
             elif kind == "raw":
                 out = ["raw"] + self.raw_post(op[1])
+            elif kind == "rawslow":
+                out = ["raw"] + self.raw_slow(op[1], op[2], op[3])
             elif kind == "rawtrunc":
                 out = ["rawtrunc"] + self.raw_truncated(op[1], op[2])
             elif kind == "abort":
@@ -509,6 +511,45 @@ class SysRun(object):
             return [r.status, text]
         finally:
             conn.close()
+
+    def raw_slow(self, body, where, pause):
+        """A slow peer: a complete, well-formed request that arrives in two parts, `pause` seconds apart."""
+        import socket as _s
+
+        sm = simnet.module()
+        sv = self.p["server"]
+        if sv["kind"] == "dispatcher":
+            return self.raw_post(body)
+        data = body.encode("utf-8")
+        if sv.get("family") == "unix":
+            sock = sm.socket(_s.AF_UNIX, _s.SOCK_STREAM)
+            sock.connect("/sim/sock")
+        else:
+            sock = sm.create_connection(("sim", self.server.server_address[1]))
+        try:
+            head = ("POST / HTTP/1.0\r\nContent-Type: application/json-rpc\r\nContent-Length: %d\r\n\r\n" % len(data)).encode()
+            whole = head + data
+            cut = {"in-headers": 20, "before-body": len(head), "in-body": len(head) + len(data) // 2}[where]
+            sock.sendall(whole[:cut])
+            self.s.fault("peer_pauses_mid_request")
+            self.s.sleep(pause)
+            sock.sendall(whole[cut:])
+            chunks = []
+            try:
+                while True:
+                    b = sock.recv(65536)
+                    if not b:
+                        break
+                    chunks.append(b)
+            except OSError:
+                pass
+            msgs = parse_http(b"".join(chunks))
+            if not msgs:
+                return [None, ""]
+            st = msgs[0][0].split()
+            return [int(st[1]) if len(st) > 1 and st[1].isdigit() else None, (msgs[0][2] or b"").decode("utf-8", "replace")]
+        finally:
+            sock.close()
 
     def raw_truncated(self, body, keep):
         """
@@ -890,5 +931,8 @@ def execute(program, decider, chooser=None, step_cap=120000):
         env.cold_start()
     s = core.Sched(decider, step_cap=step_cap, horizon=FAR * 8 + 2048, chooser=chooser)
     run = SysRun(program, s)
-    verdict = s.run(run.root)
+    with env.debug_logging(program.get("debug_log")):
+        verdict = s.run(run.root)
+    if program.get("debug_log"):
+        s.probes["library_logging_at_debug_level"] = 1
     return s, run, verdict
